@@ -267,8 +267,8 @@ Definition key3 (k : Z) (u : uid) : bool * bool * option Z :=
 
 Lemma uid_lt_lt3 : forall k a b, uid_lt k a b = lt3 (key3 k a) (key3 k b).
 Proof.
-  intros. unfold uid_lt, key3, lt3. destruct (Bool.eqb (u_isuid a) (u_isuid b)); auto.
-  destruct (Bool.eqb (uid_is_primary k a) (uid_is_primary k b)); auto.
+  intros. unfold key3, lt3, uid_lt, uid_lt_with, uid_is_primary. destruct (Bool.eqb (u_isuid a) (u_isuid b)); auto.
+  destruct (Bool.eqb (uid_is_primary_with selfsig k a) (uid_is_primary_with selfsig k b)); auto.
   destruct (selfsig k a), (selfsig k b); auto.
 Qed.
 
